@@ -1,4 +1,5 @@
 import TLVerif.Cpp.MaskedLemmas
+import TLVerif.Cpp.ClassLemmas
 /-!
 # C31 — C++ generated serializers agree with the Go serializers
 
@@ -111,6 +112,24 @@ theorem plain_is_flat (d : Desc) (prev : List MVal) (bs : Bytes) :
       cases h2 : readS ks r1 with
       | error e => simp [Except.map]
       | ok t2 => simp [Except.map]
+
+/-! ### The three C++ defect classes lie outside the reference accept set (all inputs of each class) -/
+
+/-- class `noncanon`: every medium-form (0xfe) header announcing a length ≤ 253 is rejected, whatever follows. -/
+theorem class_noncanon_rejected (x1 x2 x3 : UInt8) (r : Bytes)
+    (h : (x3.toNat <<< 16) + (x2.toNat <<< 8) + x1.toNat ≤ 253) :
+    stringRead (254 :: x1 :: x2 :: x3 :: r) = .error .noncanon :=
+  medium_form_short_rejected x1 x2 x3 r h
+
+/-- class `booltag`: a `Bool` field whose 4 bytes are neither tag is rejected. -/
+theorem class_booltag_rejected (a b : Bytes) (bs : Bytes) (hl : 4 ≤ bs.length)
+    (h : bs.take 4 ≠ a ∧ bs.take 4 ≠ b) : readP (.alt a b) bs = .error .tag :=
+  bad_bool_rejected a b bs hl h
+
+/-- class `sanity`: a count of 4-byte elements that the remaining input cannot hold is rejected. -/
+theorem class_sanity_rejected (n : Nat) (bs : Bytes) (h : bs.length < 4 * n) :
+    ∃ e, readN (.raw 4) n bs = .error e :=
+  overlong_vector_rejected n bs h
 
 /-- The hypotheses are satisfiable by a non-trivial value: `m:# a:m.0?int s:m.1?string k:# t:k*[string]`
 with mask 2 (a absent, s present) and k = 2 is written and observed back with two unread bytes. -/
